@@ -215,7 +215,8 @@ def run(ctx):
   r = ctx.tlc('SpectralIndex', 'SpectralIndex_quick.cfg' if q else 'SpectralIndex_thorough.cfg')
   ctx.require_actions(r, ['BuildShape', 'BuildAxes', 'BuildMask', 'BuildIndex'])
   rf = ctx.tlc('FactoryGrids', 'FactoryGrids.cfg')
-  cases = add_variants(r.cases, q)
+  base = [c for c in r.cases if c['nodes'] != 'fine' or not q or (c['spacing'], c['impl']) in (('gauss', 'fast'), ('equiangular', 'real'))]
+  cases = add_variants(base, q)
   res = common.parallel_map('c01', 'replay_grids', cases, nproc=4 if q else 8, tag='grid',
                             outdir=os.path.join(ctx.out, 'par'))
   fac = rf.cases
